@@ -126,14 +126,23 @@ class TWorld:
         self.pick = None
 
     # -- time ------------------------------------------------------------------------------
+    def _guarded(self, fn, *a):
+        from . import watchdog
+        try:
+            with watchdog.guard():
+                return fn(*a)
+        except watchdog.BusyLoop:
+            self.poisoned = True        # a thread spins with the baton: nothing can run any more
+            raise
+
     def settle(self, pick=None):
-        self.sched.settle(pick or self.pick)
+        self._guarded(self.sched.settle, pick or self.pick)
 
     def advance(self, dt):
-        self.sched.advance(dt, self.pick)
+        self._guarded(self.sched.advance, dt, self.pick)
 
     def advance_to(self, t):
-        self.sched.advance_to(t, self.pick)
+        self._guarded(self.sched.advance_to, t, self.pick)
 
     def next_deadline(self):
         return self.sched.next_deadline()
@@ -305,6 +314,9 @@ class TWorld:
         return dict(self.server.sockets)
 
     def teardown(self):
+        if getattr(self, 'poisoned', False):
+            self.sched.threads = []
+            return
         try:
             if self.server.service_task_event is not None:
                 self.server.service_task_event.set()
